@@ -72,6 +72,17 @@ def gen_cases(tier, seed):
                             c = cl.H(cfgv, dids=dt).call(inv.callid, inv.args, inv.blobs, [(10, reply + b'\x00' * n)]).case(5000, '%s / %s' % (name, tag))
                             EXPECT[c.line()] = (sd, rs, n, inv.callid, inv.args[0] if inv.callid == 29 else None)
                             yield c
+                # long responses (several hundred bytes: 40 and 70 records) with a few pad lengths
+                if dt is None:
+                    for reply, sd, rs, tag in respspec.gen(inv, h0.cfg, rnd, (40, 70)):
+                        if rs is None and inv.callid == 29 and inv.args[0] in (4, 0x18, 5, 6, 0x10, 0x19):
+                            rs = 1
+                        if rs is None or 'reads all' in tag or len(reply) < 200:
+                            continue
+                        for n in (0, 1, rs, 2 * rs + 1):
+                            c = cl.H(cfgv, dids=dt).call(inv.callid, inv.args, inv.blobs, [(10, reply + b'\x00' * n)]).case(5000, '%s / %s (long)' % (name, tag))
+                            EXPECT[c.line()] = (sd, rs, n, inv.callid, inv.args[0] if inv.callid == 29 else None)
+                            yield c
 
 
 def worker_init():
@@ -133,6 +144,12 @@ def oracle(c, r):
             ok = d['kind'] == 'ok' and d['sdata'] == want
         if not ok:
             return ('tolerant-changed/%s' % name, 'tolerance on, ignore_all_zero_dtc=%s: %d padding bytes changed the result: %s %r' % (ign, n, d['kind'], (d['sdata'] or [])[:30]))
+        return None
+    if n == 0:
+        # tolerance off and nothing appended: the complete valid response is accepted as it is
+        ok = (d['kind'] == 'value' and d['value'] == sd[1]) if isinstance(sd, tuple) else (d['kind'] == 'ok' and d['sdata'] == sd)
+        if not ok:
+            return ('strict-refused-unpadded/%s' % name, 'tolerance off, no padding at all: the valid response (%d bytes) gave %s err=%r' % (len(ops[0][4][0][1]), d['kind'], d.get('err')))
         return None
     # tolerance off: bytes that do not form whole records must be refused
     partial = n % rs != 0 if whole_records else n > 0
